@@ -375,6 +375,14 @@ ASMJIT_FAVOR_SIZE Error EmitHelper::emit_prolog(const FuncFrame& frame) {
     }
   }
 
+  // Emit: 'mov sa_reg, sp' (stack-arguments base pointer, FP has the same value as SP if it's preserved).
+  uint32_t sa_reg_id = frame.sa_reg_id();
+  if (sa_reg_id != Reg::kIdBad && sa_reg_id != Gp::kIdSp) {
+    if (sa_reg_id != Gp::kIdFp || !frame.has_preserved_fp()) {
+      ASMJIT_PROPAGATE(emitter->mov(x(sa_reg_id), sp));
+    }
+  }
+
   if (frame.has_stack_adjustment()) {
     uint32_t adj = frame.stack_adjustment();
     if (adj <= 0xFFFu) {
